@@ -6,8 +6,8 @@ import MpVerif.C20.LemmasExport
 
 Property theorems only.  Three groups:
 
-* (a) `MiniJSONWriter` (op machine `run`, faithful to the production build incl. "no escaping"):
-  `C20_writer_text`, `C20_json_roundtrip`, negation witnesses `C20_counterexample_*`.
+* (a) `MiniJSONWriter` (op machine `run`, faithful to the production build: asserts off, `EscapeJSON`,
+  non-finite scalars as strings): `C20_writer_text`, `C20_json_roundtrip` (all strings), `C20_any_name_roundtrip`.
 * (c) the graph validator: `C20_validator_sound`, `C20_file_sound`.
 * (b) the lazy link-export protocol: see the end of the file.
 -/
@@ -16,54 +16,45 @@ namespace MpVerif.C20
 /-! ## (a) the JSON writer -/
 
 /-- Well-nested writes produce exactly the intended text (`", "`/`": "` separators, `[]` for an empty
-    sequence) — for every value without an empty dictionary (which the writer cannot express: an
-    untouched node closes as `[]`, see `C20_counterexample_empty_dict`). -/
-theorem C20_writer_text (v : Json) (hw : NoEmptyObj v) : writeText v = render v :=
-  writeText_eq_render v hw
+    sequence, strings and keys escaped) — for every value whose scalars are JSON numbers and that has no
+    empty dictionary (which the writer cannot express: an untouched node closes as `[]`, see
+    `C20_counterexample_empty_dict`). -/
+theorem C20_writer_text (v : Json) (hw : NoEmptyObj v) (hv : Valid v) : writeText v = render v :=
+  writeText_eq_render v hw hv
 
-/-- The intended text of any value whose strings need no escaping and whose scalars are JSON numbers
-    parses back to the value. -/
+/-- The intended text parses back to the value: **all** strings and keys (any characters), scalars that are
+    JSON number tokens. -/
 theorem C20_render_parses (v : Json) (hv : Valid v) : parse (render v) = some v :=
   parse_render v hv
 
-/-- **Writer emits valid JSON for escaped-safe strings**: if all strings and keys are free of `"`, `\`
-    and control characters and all scalars are JSON number tokens, the text the writer machine produces
-    for the well-nested op sequence of `v` parses to `v`. -/
+/-- **The writer emits valid JSON that denotes the intended value** — at full strength since /repo fffb19f:
+    no hypothesis on strings or keys (`Valid` only asks that scalar tokens are JSON numbers, i.e. the
+    finite numbers `fmt` prints). -/
 theorem C20_json_roundtrip (v : Json) (hv : Valid v) (hw : NoEmptyObj v) : parse (writeText v) = some v := by
-  rw [writeText_eq_render v hw]; exact parse_render v hv
+  rw [writeText_eq_render v hw hv]; exact parse_render v hv
 
-/- Full-strength statement (no hypothesis on the strings), NOT true of the code as it exists:
+/-- in particular every name, however hostile, survives -/
+theorem C20_any_name_roundtrip (key name : Str) :
+    parse (writeText (.obj (.cons key (.str name) .nil))) = some (.obj (.cons key (.str name) .nil)) :=
+  C20_json_roundtrip _ (by simp [Valid, ValidM]) (by simp [NoEmptyObj, NoEmptyObjM])
 
-     theorem C20_json_roundtrip_full (v : Json) (hn : numbers of v are JSON numbers) (hw : NoEmptyObj v) :
-         parse (writeText v) = some v
+/-- the string lexer inverts `EscapeJSON` on every string -/
+theorem C20_escape_inverted (s rest : Str) : lexString (escape s ++ '"' :: rest) = some (s, rest) :=
+  lexString_append s rest
 
-   `DoWriteString`/`operator[]` write `"{}"` verbatim.  Proved instead: `C20_json_roundtrip` (hypothesis
-   `Valid v` = the matcher's complement of known finding C20-unescaped-name) and the witnesses below. -/
+/- The former negation witnesses (names with a quote, a trailing backslash, a TAB, `\n`; a key with a quote)
+   were true of the code before fffb19f; they are now instances of the theorem: -/
+example : (parse (writeText (.obj (.cons cl!"name" (.str cl!"c\"lin") .nil)))).map canon
+    = some (canon (.obj (.cons cl!"name" (.str cl!"c\"lin") .nil))) := by decide
+example : writeText (.obj (.cons cl!"a\"b" (.str cl!"end\\") .nil)) = cl!"{\"a\\\"b\": \"end\\\\\"}" := by decide
+example : writeText (.str ['t', '\t', Char.ofNat 1]) = cl!"\"t\\t\\u0001\"" := by decide
 
-/-- a name containing a double quote: the line is not JSON at all -/
-theorem C20_counterexample_quote :
-    (parse (writeText (.obj (.cons cl!"name" (.str cl!"c\"lin") .nil)))).isNone = true := by decide
-
-/-- a name ending in a backslash swallows the closing quote -/
-theorem C20_counterexample_backslash_end :
-    (parse (writeText (.obj (.cons cl!"name" (.str cl!"end\\") .nil)))).isNone = true := by decide
-
-/-- a control character (TAB) inside a name -/
-theorem C20_counterexample_control :
-    (parse (writeText (.obj (.cons cl!"name" (.str cl!"tab\there") .nil)))).isNone = true := by decide
-
-/-- a backslash followed by an escape letter: valid JSON, but it denotes a *different* string -/
-theorem C20_counterexample_backslash_value :
-    (parse (writeText (.obj (.cons cl!"name" (.str cl!"nl\\n") .nil)))).map canon
-      = some (canon (.obj (.cons cl!"name" (.str cl!"nl\n") .nil))) := by decide
-
-/-- the same for a key -/
-theorem C20_counterexample_key :
-    (parse (writeText (.obj (.cons cl!"a\"b" (.num cl!"1") .nil)))).isNone = true := by decide
-
-/-- non-finite scalars are printed by `fmt` as `inf`/`nan`, which are not JSON -/
-theorem C20_counterexample_inf :
-    (parse (writeText (.obj (.cons cl!"coefs" (.arr (.cons (.num cl!"inf") .nil)) .nil)))).isNone = true := by decide
+/-- non-finite scalars (`fmt` prints `inf`, `-inf`, `nan`) are written as strings: the line stays valid JSON -/
+theorem C20_nonfinite_scalar_is_string :
+    (parse (writeText (.obj (.cons cl!"coefs" (.arr (.cons (.num cl!"inf") (.cons (.num cl!"-inf")
+        (.cons (.num cl!"nan") .nil)))) .nil)))).map canon
+      = some (canon (.obj (.cons cl!"coefs" (.arr (.cons (.str cl!"inf") (.cons (.str cl!"-inf")
+        (.cons (.str cl!"nan") .nil)))) .nil))) := by decide
 
 /-- an empty dictionary cannot be written: the node closes as `[]` -/
 theorem C20_counterexample_empty_dict : writeText (.obj .nil) = cl!"[]" := by decide
@@ -73,7 +64,7 @@ example : parse (writeText (.obj (.cons cl!"VAR_index" (.num cl!"3")
       (.cons cl!"bounds" (.arr (.cons (.num cl!"-1.79769e+308") (.cons (.num cl!"1e+30") .nil))) .nil))))
     = some (.obj (.cons cl!"VAR_index" (.num cl!"3")
       (.cons cl!"bounds" (.arr (.cons (.num cl!"-1.79769e+308") (.cons (.num cl!"1e+30") .nil))) .nil))) :=
-  C20_json_roundtrip _ (by simp [Valid, ValidM, ValidL, NoEscS]; decide) (by simp [NoEmptyObj, NoEmptyObjM, NoEmptyObjL])
+  C20_json_roundtrip _ (by simp [Valid, ValidM, ValidL]; decide) (by simp [NoEmptyObj, NoEmptyObjM, NoEmptyObjL])
 
 /-! ## (c) the graph validator -/
 
@@ -257,10 +248,22 @@ theorem C20_export_all_ranges_exported (ops : List XOp) :
   simp only [exportRemaining] at this ⊢
   omega
 
-/-- **Export completeness, partial**: as long as no link entry is extended in place after it has been
-    exported (`late = false`; in the C++ this is `CopyLink::AddEntry`/`Many2ManyLink::AddEntry` hitting an entry
-    whose range is no longer the last registered one), every exported link record shows the extent its
-    entry has at the end, and refers to an existing entry. -/
+/-- **Export completeness** (DESIGN `C20_export_complete`, full strength since /repo 5f9dc1e): for every sequence
+    of `AddEntry` calls on the three link kinds followed by `FinishExportingLinkEntries`, every exported link
+    record shows the extent its entry has at the end, refers to an existing entry, and no entry was ever
+    extended after its export. -/
+theorem C20_export_complete (l : List (LKind × Entry)) :
+    let s := xrun {} (addsOf l ++ [.finish])
+    (∀ x, x ∈ s.out → (x.src, x.dst) = extentOf s x.link x.entry ∧ x.entry < (s.ents x.link).length)
+      ∧ s.late = false ∧ allEntriesExported s = true := by
+  intro s
+  have h := export_complete l
+  refine ⟨fun x hx => ⟨h.1.cons h.2 x hx, h.1.ent x hx⟩, h.2, ?_⟩
+  have := C20_export_all_ranges_exported (addsOf l)
+  exact this
+
+/-- The same for arbitrary op sequences (including a `Finish` in the middle), under the decidable side
+    condition that no entry was extended in place after its export. -/
 theorem C20_export_complete_partial (ops : List XOp) (h : (xrun {} ops).late = false) :
     ∀ x, x ∈ (xrun {} ops).out →
       (x.src, x.dst) = extentOf (xrun {} ops) x.link x.entry ∧ x.entry < ((xrun {} ops).ents x.link).length :=
@@ -271,18 +274,9 @@ theorem C20_export_ranges_exist (ops : List XOp) :
     ∀ r, r ∈ (xrun {} ops).brl → r.end_ ≤ ((xrun {} ops).ents r.link).length :=
   (xrun_xinv ops {} xinv_init).rng
 
-/- Full-strength statement (DESIGN `C20_export_complete`), NOT true of the code as it exists:
-
-     theorem C20_export_complete (ops : List XOp) :
-         ∀ x ∈ (xrun {} (ops ++ [.finish])).out,
-           (x.src, x.dst) = extentOf (xrun {} (ops ++ [.finish])) x.link x.entry
-
-   ("every registered entry was exported *with its final extent*").  `CopyLink::AddEntry` and
-   `Many2ManyLink::AddEntry` extend an already exported entry in place (A16).  Witness: -/
-
-/-- two objectives, the first one non-linear (its One2Many links are registered between the two
-    `CopyLink::AddEntry` calls): the record for the objectives' CopyLink entry says `0..0` but the
-    entry finally covers `0..1`. -/
+/-- regression witness for the former finding C20-stale-link-entry (two objectives, the first one non-linear):
+    the second objective's CopyLink entry is now a new entry (#2) instead of an in-place extension of the
+    exported entry #1. -/
 def staleOps : List XOp :=
   [.add .copy (⟨cl!"src_vars()", 0, 3⟩, ⟨cl!"dest_vars()", 0, 3⟩),
    .add .copy (⟨cl!"src_objs()", 0, 1⟩, ⟨cl!"dest_objs()", 0, 1⟩),
@@ -290,10 +284,17 @@ def staleOps : List XOp :=
    .add .copy (⟨cl!"src_objs()", 1, 2⟩, ⟨cl!"dest_objs()", 1, 2⟩),
    .finish]
 
-theorem C20_counterexample_stale_link :
+theorem C20_regression_multiobj_links :
     let s := xrun {} staleOps
     s.out.map (fun x => (x.link, x.entry, x.src.beg, x.src.end_)) =
-      [(.copy, 0, 0, 3), (.copy, 1, 0, 1), (.one2many, 0, 0, 1)] ∧
-    (extentOf s .copy 1).1.end_ = 2 ∧ s.late = true ∧ allEntriesExported s = true := by decide
+      [(.copy, 0, 0, 3), (.copy, 1, 0, 1), (.one2many, 0, 0, 1), (.copy, 2, 1, 2)] ∧
+    (extentOf s .copy 1).1.end_ = 1 ∧ s.late = false ∧ allEntriesExported s = true := by decide
+
+/-- why `Finish` has to come last (it does: `CloseGraphExporter` is the last step of `FinishModelInput`):
+    an `AddEntry` after `Finish` may still extend the – now exported – last entry. -/
+theorem C20_counterexample_extend_after_finish :
+    let s := xrun {} [.add .copy (⟨cl!"A", 0, 1⟩, ⟨cl!"B", 0, 1⟩), .finish,
+                      .add .copy (⟨cl!"A", 1, 2⟩, ⟨cl!"B", 1, 2⟩)]
+    s.late = true ∧ s.out.map (fun x => x.src.end_) = [1] ∧ (extentOf s .copy 0).1.end_ = 2 := by decide
 
 end MpVerif.C20
